@@ -347,6 +347,18 @@ static void* a_alloc(size_t n, size_t align, int isolate, int countable) {
   a_unlock();
   return arena + p;
 }
+/* malloc'ed (not calloc'ed) memory has indeterminate contents: during a run it is filled with a pattern that
+ * depends on the run's seed (zero in a quarter of the runs), so that code relying on fresh heap memory being
+ * zero - which real allocators only deliver by accident - shows */
+static void* a_alloc_junk(size_t n, size_t align) {
+  void* p = a_alloc(n, align, 0, 1);
+  if (p && sim_active) {
+    static const unsigned char pat[8] = {0x00, 0xA5, 0xA5, 0xA5, 0xFF, 0xA5, 0x01, 0x00};
+    const unsigned char b = pat[(run_seed * 0x9E3779B97F4A7C15ull) >> 61];
+    if (b) memset(p, b, n);
+  }
+  return p;
+}
 void* sim_internal_alloc(size_t n) { return a_alloc(n, 16, 0, 0); }
 /* a block far away from the ordinary ones (upper part of the arena, > 2 GiB above its base): address
  * patterns for code that sorts or subtracts pointers */
@@ -367,7 +379,7 @@ void* sim_alloc_high(size_t n) {
   a_unlock();
   return arena + p;
 }
-void* malloc(size_t n) { return a_alloc(n, 16, 0, 1); }
+void* malloc(size_t n) { return a_alloc_junk(n, 16); }
 void* calloc(size_t a, size_t b) {
   /* arena pages are fresh zero pages and never reused.  Arrays indexed by
    * descriptor number (libfiber allocates them with nmemb == rlim_max == 64)
@@ -410,11 +422,11 @@ void* realloc(void* p, size_t n) {
   return q;
 }
 int posix_memalign(void** out, size_t al, size_t n) {
-  *out = a_alloc(n, al, 0, 1);
+  *out = a_alloc_junk(n, al);
   return *out ? 0 : ENOMEM;
 }
-void* aligned_alloc(size_t al, size_t n) { return a_alloc(n, al, 0, 1); }
-void* memalign(size_t al, size_t n) { return a_alloc(n, al, 0, 1); }
+void* aligned_alloc(size_t al, size_t n) { return a_alloc_junk(n, al); }
+void* memalign(size_t al, size_t n) { return a_alloc_junk(n, al); }
 size_t malloc_usable_size(void* p) { return p ? ((ahdr_t*)p - 1)->size : 0; }
 void sim_mem_hold(void* p) {
   ahdr_t* h = (ahdr_t*)p - 1;
@@ -430,6 +442,8 @@ void alloc_check(const void* addr, size_t size) {
   uint64_t a = (uint64_t)addr;
   if ((a >> 40) == 0xFBFBFB)
     sim_violation("MEM-poison-pointer", "dereference of %p: a pointer value read from freed or dead (poisoned) memory", addr);
+  if ((a >> 40) == 0xA5A5A5)
+    sim_violation("MEM-uninitialised-pointer", "dereference of %p: a pointer value read from malloc'ed memory that was never written", addr);
   if (a - ZONE_LO >= ZONE_HI - ZONE_LO) return;
   if (a < ARENA_BASE || a + size > ARENA_BASE + ARENA_SIZE) sim_violation("MEM-wild-access", "access of %zu bytes at %p, far outside any block", size, addr);
   uint8_t s0 = shadow[(a - ARENA_BASE) >> 3], s1 = shadow[(a + size - 1 - ARENA_BASE) >> 3];
@@ -606,6 +620,7 @@ static int others_all_blocked(int self);
 /* a held thread is not given the baton for a while (as if the OS had preempted it): set when one of its
  * fibers was made runnable before its context switch completed, so that the race can actually play out */
 static uint64_t hold_until[MAXT];
+static uint64_t n_wakeups_seen;
 static int runnable(int i) {
   if (hold_until[i] > g_steps && T[i].st == ST_RUN) return 0;
   switch (T[i].st) {
@@ -783,9 +798,30 @@ void sim_sched_point(int kind) {
   rt_call((void*)sched_point_inner, (uint64_t)kind, 0, 0);
   errno = saved_errno;
 }
+/* harness-directed slow thread: "this kernel thread is descheduled for a while right after its n-th atomic
+ * read-modify-write from now" (part of the program, so it shrinks and replays like any other choice) */
+static __thread int arm_rmw, arm_steps, arm_fire;
+void sim_stall_after_rmw(int nth, int steps) {
+  arm_rmw = nth;
+  arm_steps = steps;
+  arm_fire = 0;
+}
 static void sched_point_inner(int kind) {
   account_step(kind);
   tso_maybe_flush();
+  if (arm_fire && !preempt_off) { /* the read-modify-write has executed: this is the next scheduling point after it */
+    arm_fire = 0;
+    n_stalled++;
+    T[me].st = ST_SLEEP;
+    T[me].deadline = now_ns + (uint64_t)arm_steps * cost_ns;
+    TR("[%lu] t%d directed stall of %d steps\n", g_steps, me, arm_steps);
+    block_me();
+    T[me].st = ST_RUN;
+    n_stalled--;
+    idle_since_ns = now_ns;
+    return;
+  }
+  if (arm_rmw && (kind == K_RMW || kind == K_DWCAS) && --arm_rmw == 0) arm_fire = 1;
   if (preempt_off) return;
   /* fairness bound */
   for (int i = 0; i < nthr; i++)
@@ -813,6 +849,12 @@ static void sched_point_inner(int kind) {
       return;
     }
   }
+  if (hold_until[me] > g_steps) { /* this thread is being held: pointless if nobody else can run (same in both modes) */
+    int any = 0;
+    for (int i = 0; i < nthr; i++)
+      if (i != me && runnable(i)) any = 1;
+    if (!any) hold_until[me] = 0;
+  }
   if (sched_replay) {
     int o = replay_lookup();
     if (o >= 0 && o < nthr && o != me && runnable(o)) {
@@ -821,6 +863,15 @@ static void sched_point_inner(int kind) {
       handoff(o);
     }
     return;
+  }
+  if (hold_until[me] > g_steps) { /* held: somebody else runs */
+    int o = pick_random(1);
+    if (o >= 0) {
+      record_dec(o);
+      n_preempt++;
+      handoff(o);
+      return;
+    }
   }
   if (pct_on) {
     for (int c = 0; c < pct_nchange; c++)
@@ -1496,7 +1547,16 @@ void __wrap_fiber_scheduler_schedule(void* s, void* f) {
     }
     if (G[i].g == G_DEAD) sim_violation("C02-schedule-dead", "fiber #%d scheduled after being freed", i);
     G[i].pend = 1;
-    if (G[i].schedules++ > 0 && !glue_is_yield_requeue(f)) G[i].wakeups++;
+    if (G[i].schedules++ > 0 && !glue_is_yield_requeue(f)) {
+      G[i].wakeups++;
+      /* every fourth wake-up of a suspended fiber: the waker's kernel thread loses the baton for a while right
+       * after publishing the fiber (not a verdict: it lets another thread take the woken fiber and run it
+       * while the waker has not finished with it - a waker that still uses the waiter's list node shows) */
+      if (nthr > 1 && G[i].g == G_SAVED && (++n_wakeups_seen & 3) == 0) {
+        hold_until[me] = g_steps + 600;
+        sim_probe("waker_held_after_wake_up", 1);
+      }
+    }
     stat_sched++;
     th(0x5C4ED000ull + i);
     TR("[%lu] t%d schedule #%d\n", g_steps, me, i);
